@@ -71,7 +71,7 @@ for key in [
         "schedule: two runners evaluate the guard for two same-key invocations before either claims (and again before either starts): both RUNNING with the same key", "findings/repro/r13_cc_check_then_act.py",
         "needs a per-key critical section across orchestrator backends (lock table / conditional update): architectural")
 # ------------------------------------------------------------------ C11
-add("C11", "C11/R5/pynenc.runner.thread_runner.ThreadRunner._on_stop::join(thread_info.thread)",
+add("C11", "C11/R5/pynenc.runner.thread_runner.ThreadRunner._on_stop::join(.thread)",
     "ThreadRunner._on_stop joins task threads without a timeout while a waiting task's result loop only tests the awaited invocation's status",
     "program: a task waiting on a sub-task that is still queued; stop request while it waits: run() never returns", "findings/repro/r14_stop_hang.py",
     "needs a cooperative cancellation of waiting task threads (or a bounded join plus a policy for threads that keep running): behavioural change of the runner")
